@@ -246,12 +246,15 @@ impl FmtAttribute {
                     .args
                     .iter()
                     .find_map(|a| (a.alias()? == &name).then_some(&a.expr))
-                    .map_or(Some(name), |expr| expr.ident().map(ToString::to_string))?,
+                    .map_or(Some(name), |expr| {
+                        expr.ident().map(|i| i.unraw().to_string())
+                    })?,
                 Parameter::Positional(i) => self
                     .args
                     .iter()
                     .nth(i)
                     .and_then(|a| a.expr.ident().filter(|_| a.alias.is_none()))?
+                    .unraw()
                     .to_string(),
             };
 
